@@ -56,6 +56,14 @@ class NoFromJson(SubclassJSONSerializer):
     pass
 
 
+class Z(SubclassJSONSerializer):
+    """a loaded, deserialisable class with a short name: a tag that names it in ANOTHER module must not find it"""
+
+    @classmethod
+    def _from_json(cls, data, **kwargs):
+        return cls()
+
+
 class Plain:
     pass
 
